@@ -2,7 +2,7 @@
    documented grammar (Syntax/Grammar.v) is read back by the parser model as
    the tree the documentation prescribes. *)
 From Coq Require Import List NArith ZArith Bool Arith Lia.
-From NV Require Import Syntax.Token Syntax.Ast Syntax.StrEsc Syntax.Parser Syntax.Grammar.
+From NV Require Import Syntax.Token Syntax.Ast Syntax.StmtAst Syntax.StrEsc Syntax.Parser Syntax.Grammar.
 Import ListNotations.
 Local Open Scope nat_scope.
 Local Arguments Nat.leb : simpl never.
@@ -977,12 +977,23 @@ Proof.
   intros t W. destruct (pr_first t W) as (tok & r & E & Fi & _).
   unfold parse. rewrite E. rewrite skip_first by exact Fi.
   cbn [parse_loop].
-  assert (Hs : starts_other_statement (tok :: r) = false) by (destruct tok; try discriminate; reflexivity).
-  rewrite Hs. rewrite statement_first by exact Fi. unfold expression.
+  rewrite statement_first by exact Fi. unfold expression.
   change (expression_d (S (length (tok :: r)))) with (L (length (tok :: r)) 0).
   rewrite <- E. rewrite <- (app_nil_r (pr t)) at 2.
   rewrite (expression_ok t [] W eq_refl); [reflexivity|lia].
 Qed.
+
+Lemma statement_let_plain : forall n r,
+  statement (TKw KLet :: TIdent n :: TEqual :: r) =
+  bind (expression (skip_empty_lines r)) (fun e rest => Ok (StLet (mk_defvar n None [] e)) rest).
+Proof.
+  intros n r. unfold statement. cbn [statement_n parse_variable negb bind].
+  destruct (expression (skip_empty_lines r)); reflexivity.
+Qed.
+
+Lemma statement_procedure : forall k r, is_procedure k = true ->
+  statement (TKw k :: r) = parse_procedure k r.
+Proof. intros k r H. destruct k; try discriminate; reflexivity. Qed.
 
 Theorem roundtrip_stmt : forall s, wf_stmt s = true -> parse (pr_stmt s) = Ok [desugar_stmt s] [].
 Proof.
@@ -990,7 +1001,8 @@ Proof.
   - apply roundtrip. exact W.
   - (* let *)
     destruct (pr_first t W) as (tok & r & E & Fi & _).
-    unfold parse. cbn [pr_stmt skip_empty_lines parse_loop starts_other_statement statement parse_variable].
+    unfold parse. cbn [pr_stmt skip_empty_lines parse_loop].
+    rewrite statement_let_plain.
     rewrite E. rewrite skip_first by exact Fi. unfold expression.
     change (expression_d (S (length (tok :: r)))) with (L (length (tok :: r)) 0).
     rewrite <- E. rewrite <- (app_nil_r (pr t)).
@@ -998,18 +1010,11 @@ Proof.
   - (* procedure call *)
     apply andb_prop in W. destruct W as [Hk Wa].
     unfold parse. cbn [pr_stmt skip_empty_lines parse_loop].
-    assert (Hs : starts_other_statement (TKw k :: TLParen :: pr_args args ++ [TRParen]) = false)
-      by (destruct k; try discriminate; reflexivity).
-    rewrite Hs.
-    assert (St : statement (TKw k :: TLParen :: pr_args args ++ [TRParen])
-                 = parse_procedure k (TLParen :: pr_args args ++ [TRParen]))
-      by (destruct k; try discriminate; reflexivity).
-    rewrite St. cbn [parse_procedure].
+    rewrite statement_procedure by exact Hk. cbn [parse_procedure].
     rewrite arguments_ok; [reflexivity|].
     intros a Ha. assert (Waa : wf a = true) by (eapply forallb_forall in Wa; eauto).
     split; [exact Waa|]. intros rest F.
     apply expression_ok; auto.
-    (* the printed argument is shorter than the argument list *)
     clear - Ha. rewrite app_length. simpl.
     induction args as [|b r IH]; [contradiction|].
     rewrite pr_args_cons, app_length. destruct Ha as [->|Ha]; [lia|].
